@@ -195,6 +195,133 @@ def parse_method(path, fn, root_style):
     return {"py": fn.name, "method": True, "cls": call.func.id, "emit": emit, "args": args}
 
 
+# ------------------------------------------------------------------------------------------------
+# K1: model DATA derived from /repo's source, and the runtime name loop, on every run
+# ------------------------------------------------------------------------------------------------
+def k1_source_tables(ctx, run):
+    import importlib.util
+    import itertools
+
+    from ariadne_codegen.client_generators import constants as K
+
+    got = model.call("C14", [Sym("suffixes")])
+    want = [K.GRAPHQL_OBJECT_SUFFIX, K.GRAPHQL_INTERFACE_SUFFIX, K.GRAPHQL_UNION_SUFFIX, K.GRAPHQL_BASE_FIELD_CLASS]
+    if got != want:
+        run.broken("K1 class-name suffix table", f"model {got} vs constants.py {want}")
+    stems = [K.CUSTOM_FIELDS_FILE_PATH.stem, K.CUSTOM_FIELDS_TYPING_FILE_PATH.stem, K.BASE_OPERATION_FILE_PATH.stem]
+    if stems != ["custom_fields", "custom_typing_fields", "base_operation"]:
+        run.broken("K1 builder module names", f"constants.py {stems}: the harness imports these modules by name")
+    # _format_variable_name of the real runtime file vs Model.format_variable_name, adversarial used sets
+    spec = importlib.util.spec_from_file_location(
+        "c14_base_operation", os.path.join(REPO, "ariadne_codegen/client_generators/dependencies/base_operation.py"))
+    mod = importlib.util.module_from_spec(spec)
+    spec.loader.exec_module(mod)
+    fld = mod.GraphQLField("f")
+    cases = []
+    names = ["a", "a_0", "a_0_1", "b"]
+    for name in names:
+        for idx in (0, 1, 10):
+            base = f"{name}_{idx}"
+            pool = [base] + [f"{base}_{c}" for c in range(1, 5)] + [f"a_{idx}", "a_0_1", "zz"]
+            for k in range(0, 5):
+                for comb in itertools.islice(itertools.combinations(pool, k), 40):
+                    cases.append((idx, name, list(comb)))
+    for _ in range(300):
+        idx = ctx.rng.randint(0, 12)
+        name = ctx.rng.choice(names)
+        base = f"{name}_{idx}"
+        used = [base] + [f"{base}_{c}" for c in range(1, ctx.rng.randint(1, 30))]
+        ctx.rng.shuffle(used)
+        cases.append((idx, name, used))
+    res = model.batch("C14", [[Sym("fmtname"), i, n, u] for i, n, u in cases])
+    bad = 0
+    for (i, n, u), r in zip(cases, res):
+        s = set(u)
+        impl = fld._format_variable_name(i, n, s)
+        mres = r[1] if isinstance(r, list) and r and r[0] == "some" else None
+        run.count()
+        if impl != mres or impl in u or s != set(u) | {impl}:
+            bad += 1
+            if bad <= 3:
+                run.violation(f"K1 _format_variable_name({i}, {n!r}, {sorted(u)}) = {impl!r}, model {mres!r}",
+                              {"idx": i, "name": n, "used": u, "impl": impl, "model": mres},
+                              found_input=(impl in u))
+    run.extra["k1_name_loop_cases"] = len(cases)
+    run.dist("k1", "name_loop", len(cases))
+
+
+def check_imports(sc, d):
+    """every `from .X import Y` of a builder module resolves inside the package, enums/inputs come from
+    the configured modules, and every name the module uses is bound"""
+    import builtins
+
+    problems = []
+    enums_mod = sc["conf"].get("enums_module", "enums")
+    inputs_mod = sc["conf"].get("inputs_module", "input_types")
+
+    def top_names(path):
+        t = ast.parse(open(path).read())
+        out = set()
+        for n in t.body:
+            if isinstance(n, (ast.ClassDef, ast.FunctionDef, ast.AsyncFunctionDef)):
+                out.add(n.name)
+            elif isinstance(n, (ast.Import, ast.ImportFrom)):
+                out |= {(a.asname or a.name).split(".")[0] for a in n.names}
+            elif isinstance(n, (ast.Assign, ast.AnnAssign)):
+                for tg in (n.targets if isinstance(n, ast.Assign) else [n.target]):
+                    if isinstance(tg, ast.Name):
+                        out.add(tg.id)
+        return out
+
+    for fname in ("custom_fields.py", "custom_queries.py", "custom_mutations.py", "custom_typing_fields.py"):
+        path = os.path.join(d, fname)
+        if not os.path.exists(path):
+            continue
+        tree = ast.parse(open(path).read())
+        bound = set(dir(builtins))
+        for n in ast.walk(tree):
+            if isinstance(n, ast.ImportFrom):
+                for a in n.names:
+                    bound.add(a.asname or a.name)
+                if n.level == 1:
+                    target = os.path.join(d, (n.module or "__init__") + ".py")
+                    if not os.path.exists(target):
+                        problems.append(f"{fname}: from .{n.module} import …: no such module in the package")
+                        continue
+                    have = top_names(target)
+                    for a in n.names:
+                        if a.name not in have:
+                            problems.append(f"{fname}: from .{n.module} import {a.name}: not defined there")
+                        if a.name in sc["enums"] and n.module != enums_mod:
+                            problems.append(f"{fname}: enum {a.name} imported from .{n.module}, configured module is {enums_mod}")
+                        if a.name in sc["inputs"] and n.module != inputs_mod:
+                            problems.append(f"{fname}: input {a.name} imported from .{n.module}, configured module is {inputs_mod}")
+            elif isinstance(n, ast.Import):
+                bound |= {(a.asname or a.name).split(".")[0] for a in n.names}
+            elif isinstance(n, (ast.ClassDef, ast.FunctionDef)):
+                bound.add(n.name)
+            elif isinstance(n, ast.arg):
+                bound.add(n.arg)
+            elif isinstance(n, ast.Name) and isinstance(n.ctx, ast.Store):
+                bound.add(n.id)
+        used = {n.id for n in ast.walk(tree) if isinstance(n, ast.Name) and isinstance(n.ctx, ast.Load)}
+        # quoted annotations and return types
+        for n in ast.walk(tree):
+            anns = []
+            if isinstance(n, ast.FunctionDef):
+                anns = [n.returns] + [a.annotation for a in n.args.args + n.args.kwonlyargs] \
+                    + ([n.args.vararg.annotation] if n.args.vararg else [])
+            elif isinstance(n, ast.AnnAssign):
+                anns = [n.annotation]
+            for an in anns:
+                for c in (ast.walk(an) if an is not None else []):
+                    if isinstance(c, ast.Constant) and isinstance(c.value, str) and c.value.isidentifier():
+                        used.add(c.value)
+        for name in sorted(used - bound):
+            problems.append(f"{fname}: name {name} is used but neither imported nor defined")
+    return problems
+
+
 def k1_compare(run, sc, gen, mclasses, label):
     """returns (present class names, class capability table) or None when broken"""
     d = os.path.join(gen["dir"], gen["pkg"])
@@ -214,7 +341,7 @@ def k1_compare(run, sc, gen, mclasses, label):
         a = ast.dump(ast.parse(open(os.path.join(d, "base_operation.py")).read()))
         if a != ast.dump(ast.parse(base_src)):
             problems.append("base_operation.py in the package differs from dependencies/base_operation.py")
-    sers = {n for n, c in sc["customs"].items() if c.get("serialize")}
+    problems += check_imports(sc, d)
     caps = {"GraphQLField": (False, False)}
     for name, info in {**ctf, **cf}.items():
         caps[name] = (info["fields"], info["on"])
@@ -467,6 +594,7 @@ def _run(ctx, run, rng, root, n_rand, hist_per):
     with ThreadPoolExecutor(max_workers=16) as ex:
         gens = list(ex.map(lambda p: generate(p[1][1], root, p[0]), enumerate(scen)))
     worlds = [G.world_sx(sc) for _, sc in scen]
+    k1_source_tables(ctx, run)
     mcls = model.batch("C14", [[Sym("classes"), w] for w in worlds])
     jobs = []
     for (label, sc), gen, w, mc in zip(scen, gens, worlds, mcls):
@@ -535,8 +663,10 @@ def prepare(ctx, rng, label, sc, gen, world, mclasses, present, hist_per):
             for _ in range(n_before + 1):
                 rc, rt, kind = rng.choice(roots) if rng.random() < 0.3 else roots[0]
                 depth = rng.choice([1, 2, 3, 3, 4])
+                eg.bad_used = False
                 fe = eg.operation(rc, rt, depth, edge)
-                ops.append({"kind": kind, "model": [m for m, _ in fe], "driver": [d for _, d in fe]})
+                ops.append({"kind": kind, "model": [m for m, _ in fe], "driver": [d for _, d in fe],
+                            "malformed": eg.bad_used})
             hists.append({"ops": ops, "stream": "edge" if edge else "main", "class": None})
     # every multi-operation history is followed by its last operation alone (fresh import state)
     flat = []
@@ -655,6 +785,13 @@ def judge(ctx, run, j, o):
                     if "".join(fr["query"].split()).replace("Op0", name) != "".join(r["query"].split()) or fr["variables"] != r["variables"]:
                         hist_dep = True
                         problems.append("request differs from the one the same expression yields in a fresh process")
+            if not conform or op.get("malformed"):
+                # malformed stream: a None at a non-null item position of a serialised scalar; the
+                # property's quantifier (caller's values of the argument's type) does not cover it —
+                # model/implementation agreement was checked above, the oracle is not applied
+                run.dist("outcome", "malformed-values(None at a non-null item position)" if conform
+                         else "precondition-violated(None at non-null item of a serialised scalar)")
+                continue
             key = json.dumps(op["model"], sort_keys=True)
             if (mreq[1] or "alias" in key or '"on"' in key) and depth >= 2:
                 run.nontrivial_case(hash(key))
